@@ -1,7 +1,8 @@
 """C03 - merge over-approximates both inputs and is stable."""
 import core
 from core import Report
-from common import TRUSTED, first_with
+import strict_canary
+from common import TRUSTED
 
 TRACE_SPEC = "trace/T_C03.tla"
 
@@ -27,16 +28,18 @@ def check(seed, tier):
     meta = core.gen("C03", seed, tier, shards=8 if tier == "quick" else 16)
     core.validate_traces(rep, TRACE_SPEC, meta["files"], parallel=8, timeout=5400)
 
+    def eligible(e):
+        return e["dom"] == "val" and e["vk"] == "iv" and e["panic"] == "" and e["x"]["iv"]["w"] == 1 and e["x"]["iv"]["s"] != e["x"]["iv"]["e"]
+
     def mutate(evs):
         # shrink the merge of an interval pair to the singleton {start of x}: x's end is lost
-        i = first_with(evs, lambda e: e["dom"] == "val" and e["vk"] == "iv" and e["panic"] == "" and e["x"]["iv"]["s"] != e["x"]["iv"]["e"], start=0)
-        if i is not None:
-            m = evs[i]["m"]["iv"]
-            m["s"] = list(evs[i]["x"]["iv"]["s"])
-            m["e"] = list(evs[i]["x"]["iv"]["s"])
-            m["st"] = [0] * 8
+        i = min(3, len(evs) - 1)
+        m = evs[i]["m"]["iv"]
+        m["s"] = list(evs[i]["x"]["iv"]["s"])
+        m["e"] = list(evs[i]["x"]["iv"]["s"])
+        m["st"] = [0] * 8
         return i
-    core.canary(rep, TRACE_SPEC, meta["files"][0], mutate, n=200)
+    strict_canary.run(rep, TRACE_SPEC, meta["files"][0], eligible, mutate, n=12)
     rep.traces, rep.events = meta["cases"], meta["events"]
     return rep.finish("model_checking", {
         "distinct_nontrivial": meta["distinct_nontrivial"],
